@@ -17,6 +17,8 @@ from .c11 import new_interp, subterms
 from . import c10
 
 
+CONFIG_SENSITIVE = True      # thorough tier: analysed under all four build configurations
+
 def verify_ctx(spec):
     W = world()
     it = W.interp()
